@@ -401,6 +401,8 @@ def gen_flags(rng):
     if rng.random() < 0.1:
         fl.append(rng.choice(fl))
     rng.shuffle(fl)
+    if fl == ['']:
+        fl = ['', '']        # "#, " alone is not a flags line for polib
     return fl
 
 
@@ -438,6 +440,8 @@ def gen_entry(rng, ascii_only):
         e['flags'] = [f for f in e['flags'] if f.isascii()]
         if not all(c.isascii() for c in e['extracted']):
             e['extracted'], e['_trigger'] = [], False
+    if e['flags'] == ['']:
+        e['flags'] = ['', '']       # "#, " alone is not a flags line for polib (no item at all, rather than one empty item)
     if e.get('obsolete'):
         # polib attaches "#." and "#|" lines before "#~" entries to the entry as well; keep obsolete entries plain
         e['extracted'], e['_trigger'] = [], False
@@ -488,7 +492,7 @@ def special_catalogs():
                        {'msgid': 'e3', 'msgid_plural': 'e3s', 'msgstr_plural': [c, a]}]))
     out.append(mk([{'msgid': 'x\x01', 'msgstr': 'u\x01'}, {'msgid': 'e2', 'msgstr': 'v\x01'}, {'msgid': 'e3', 'msgstr': 'w\x01'}]))
     out.append(mk([{'msgid': 'e1', 'msgstr': 'u\x01', 'obsolete': True}, {'msgid': 'e2', 'msgstr': 'v\x01'}]))
-    for fl in (['', 'fuzzy'], [''], ['', ''], ['fuzzy', ''], ['', '', 'c-format', 'c-format'], ['fuzzy', 'fuzzy'],
+    for fl in (['', 'fuzzy'], ['', ''], ['fuzzy', ''], ['', '', 'c-format', 'c-format'], ['fuzzy', 'fuzzy'],
                ['range:1..2', 'range:1..2'], ['range:1..2', 'range: 1..2'], ['range:1..2', 'range:1..2', 'range:3..4'],
                ['range:3..4', 'range:1..2', 'range:0..9'], ['range:1..2', 'range:01..2', 'range:1..3']):
         out.append(mk([{'msgid': 'f', 'msgid_plural': 'fs', 'msgstr_plural': ['a', 'b'], 'flags': fl}]))
@@ -880,8 +884,7 @@ def check(ctx):
         if ' | ' in r['impl']:
             ctx.nontriv(('cat', r['impl']))
         if r['enc'] != cat['_enc'] or r['template'] != (ext == 'pot') or not structure_matches(cat, r['views'], 1):
-            ctx.count('catalog:structure-differs-after-parse')
-            continue
+            ctx.count('catalog:structure-differs-after-parse')     # judged all the same: the rules speak about the file as written
         nmatch += 1
         exp, dem = oracle(cat, ext == 'pot', formats)
         judge(ctx, 'check_messages', {'catalog': text[:3000], 'kind': ext}, r['impl'], exp, dem)
